@@ -32,6 +32,14 @@ ASSUMPTIONS = ["String keys are NUL-free: String::compare is libc strcmp = lexic
                "operator new/delete of chain nodes succeed; Map/Dic handles are unshared when mutated (shared Array growth is C01's known finding)"]
 SHRINK_KEEP_FIRST = 0
 
+# Known finding (recorded in known_findings.txt).  Excluded input class, decidable on the op list: an `asgfrom s k j`
+# (`m[k] = m[j]`) on an ORDERED map (mi, ds) where k or j is absent at that point.  gen() emits ordered asgfrom only through
+# asgfrom_present(), which keeps both keys present; hash containers get asgfrom with arbitrary keys (their nodes do not move).
+KNOWN = [{"key": "index-assign-from-own-element",
+          "desc": "Map<int,int> m; m[5]=55; m[7]=77; m[1] = m[5]; m[1] is 0 (Dic<String>: d[\"a\"] = d[\"b\"] gives \"\")",
+          "case": ["mi set 0 5 55", "mi set 0 7 77", "mi asgfrom 0 1 5", "mi find 0 1", "mi dump 0",
+                   "ds set 0 62 76616c7565206f662062", "ds set 0 63 76616c7565206f662063", "ds asgfrom 0 61 62", "ds find 0 61"]}]
+
 FALLBACK = {"Gen/HashMapGen.lean": "/- placeholder written because the translator failed on the current source -/\n"
             "namespace Gen.HashMap\ndef hashMul : Int := 0\ndef defaultBuckets : Nat := 0\ndef growNum : Nat := 0\n"
             "def growDen : Nat := 0\ndef growFactor : Nat := 0\ndef maxSlots : Nat := 0\ndef skip : Nat := 0\n"
@@ -247,7 +255,8 @@ def history(rng, kind, nops, pool=None, news=True):
             elif r < 0.45: ops.append("%s cidx %d %s" % (kind, s, K()))
             elif r < 0.55: ops.append("%s find %d %s" % (kind, s, K()))
             elif r < 0.62: ops.append("%s has %d %s" % (kind, s, K()))
-            elif r < 0.66: ops.append("%s get %d %s %s" % (kind, s, K(), vstr(kind, rng)))
+            elif r < 0.64: ops.append("%s get %d %s %s" % (kind, s, K(), vstr(kind, rng)))
+            elif r < 0.67: ops.append("%s asgfrom %d %s %s" % (kind, s, K(), K()))
             elif r < 0.83: ops.append("%s rem %d %s" % (kind, s, K()))
             elif r < 0.84: ops.append("%s clear %d" % (kind, s))
             elif r < 0.87: ops.append("%s clone %d %d" % (kind, s, S()))
@@ -354,6 +363,24 @@ def equal_contents(rng, kind):
     return ops + dumps(kind)
 
 
+def asgfrom_present(rng, kind):
+    """`m[k] = m[j]` on an ORDERED map with both keys present (no insertion inside the expression).  The other
+    class - k or j absent, so that one operator[] inserts while the reference returned by the other is live - is the
+    known finding index-assign-from-own-element and is excluded, exactly: see KNOWN."""
+    cls, keys = pool_for(kind, rng)
+    keys = list(dict.fromkeys(kstr(kind, k) for k in keys))
+    present = [k for k in keys if rng.random() < 0.7] or keys[:1]
+    ops = ["%s set 0 %s %s" % (kind, k, vstr(kind, rng)) for k in present]
+    for _ in range(rng.randrange(1, 8)):
+        ops.append("%s asgfrom 0 %s %s" % (kind, rng.choice(present), rng.choice(present)))
+        if rng.random() < 0.3:
+            k = rng.choice(keys)
+            ops.append("%s idx 0 %s" % (kind, k))
+            if k not in present:
+                present.append(k)
+    return ops + dumps(kind, (0,))
+
+
 def growth(rng, kind, n, start=None, removes=0.1, shared=None):
     """n distinct insertions (crossing the growth thresholds), interleaved removals and lookups.
     shared=(i0, i1): slot 3 is a second handle to the same table while insertions i0..i1 happen (a copy of the
@@ -390,6 +417,11 @@ def growth(rng, kind, n, start=None, removes=0.1, shared=None):
             ops.append("%s len 0" % kind)
             ops.append("%s dump 0" % kind)
             ops.append("%s raw 0" % kind)
+            if kind in HASHED and live:
+                fresh = kstr(kind, 900000 + i if kind in INTKEY else b"fresh%d" % i)
+                ops.append("%s asgfrom 0 %s %s" % (kind, fresh, rng.choice(live)))
+                ops.append("%s find 0 %s" % (kind, fresh))
+                live.append(fresh)
             if kind in SETS:
                 # s << s exactly at / around the fill threshold: rehash() runs inside the enumeration of s itself
                 ops.append("%s addself 0" % kind)
@@ -431,6 +463,9 @@ def gen(rng, tier):
     for kind in ORDERED + HASHED + SETS:
         for i in range(120 if q else 2500):
             cases.append(equal_contents(rng, kind))
+    for kind in ORDERED:
+        for i in range(40 if q else 800):
+            cases.append(asgfrom_present(rng, kind))
     # 4. growth
     for kind in HASHED + SETS:
         for start in (None, 1, 3, 8, 64):
@@ -453,7 +488,7 @@ def gen(rng, tier):
     return cases
 
 
-MUT = ("share", "addself", "set", "asg", "idx", "rem", "ins", "from", "addset", "add", "clear", "union", "inter", "diff", "clone")
+MUT = ("asgfrom", "share", "addself", "set", "asg", "idx", "rem", "ins", "from", "addset", "add", "clear", "union", "inter", "diff", "clone")
 OBS = ("find", "has", "get", "cidx", "dump", "keys", "eq", "len", "cont", "any", "union", "inter", "diff", "idx")
 
 
@@ -533,7 +568,7 @@ def layout_stats(cases):
         _Tbl.C = {"mul": 33, "dflt": 256, "num": 7, "den": 8, "fac": 8, "max": 280000}
     st = {k: 0 for k in ("rem_head_with_tail", "rem_mid", "rem_last", "rem_single", "rem_absent", "rehash_events",
                          "rehash_max_buckets", "max_chain", "eq_same_size", "eq_across_sizes", "self_merge", "share_ops",
-                         "growth_due_while_shared", "new_with_size_below_1",
+                         "growth_due_while_shared", "new_with_size_below_1", "index_assign_from_own_element",
                          "self_merge_at_growth_threshold", "raw_observations")}
     for c in cases:
         T = {kind: [_Tbl() for _ in range(4)] for kind in HASHED + SETS}
@@ -556,6 +591,9 @@ def layout_stats(cases):
                 sl[int(t[3]) % 4] = a
                 st["share_ops"] += 1
             elif op in ("set", "asg", "idx", "ins"): a.index(K(t[3]), st, sh)
+            elif op == "asgfrom":
+                st["index_assign_from_own_element"] += 1
+                a.index(K(t[4]), st, sh); a.index(K(t[3]), st, sh)
             elif op == "rem": a.remove(K(t[3]), st)
             elif op == "clear": a.b = {}; a.n = 0
             elif op == "clone":
@@ -668,6 +706,8 @@ def simulate(case):
         elif op in ("set", "asg"): a[_k(kind, t[3])] = V(t[4]); out.append("ok %d" % len(a))
         elif op == "idx":
             k = _k(kind, t[3]); a.setdefault(k, dflt); out.append("%s %d" % (VS(a[k]), len(a)))
+        elif op == "asgfrom":
+            v = a.setdefault(_k(kind, t[4]), dflt); a[_k(kind, t[3])] = v; out.append("ok %d" % len(a))
         elif op == "cidx": out.append("%s %d" % (VS(a.get(_k(kind, t[3]), dflt)), len(a)))
         elif op == "find":
             k = _k(kind, t[3]); out.append("some " + VS(a[k]) if k in a else "none")
@@ -857,7 +897,12 @@ LEVEL_NOTE = ("The loop/branch structure of the models is tied to the code by K 
               "list operations (C01), chain nodes' new/delete and the LeakSanitizer verdict, const operator[] default objects, the "
               "foreach/Enumerator plumbing (s << s around the growth threshold runs rehash inside the enumeration of s itself; exercised "
               "under ASan, modelled as enumerate-then-insert, equal by K). Equality/merge theorems for hash containers assume both tables "
-              "use the same hash function (true for one key type). String keys are NUL-free (strcmp vs memcmp disagree on embedded NUL). No "
+              "use the same hash function (true for one key type). Known finding index-assign-from-own-element: `m[k] = m[j]` on an "
+              "ordered Map/Dic with k or j absent reads the right-hand reference after the left-hand operator[] has shifted / "
+              "reallocated the flat array (wrong value or use after free); not repairable inside operator[]; the generator excludes "
+              "exactly that class (ordered `asgfrom` only with both keys present) and the KNOWN probe replays it on every run; hash "
+              "containers get `m[k] = m[j]` with arbitrary keys, also at the growth thresholds (the model assumes g++'s right-operand-first "
+              "evaluation, confirmed by `raw`). String keys are NUL-free (strcmp vs memcmp disagree on embedded NUL). No "
               "statement is left partial; hashmap_remove_head_counterexample / hashmap_eq_order_counterexample are about transcriptions of "
               "the pre-fix code kept in AslProps/C02.lean (their premise - the model's enumeration order is the code's - is what `raw` "
               "checks).")
